@@ -689,13 +689,13 @@ Qed.
 
 (* startNCP (repaired, either owner): either IPCP is (re)started with a usable assignment which is also the
    session address, or nothing about IPCP changes and the session address becomes nil *)
-Lemma start_ncp_spec : forall ow c st p addr op last orc,
-  let r := fst (start_ncp repaired ow c st p addr op last orc) in
+Lemma start_ncp_spec : forall ow c st p addr op last dns orc,
+  let r := fst (start_ncp repaired ow c st p addr op last dns orc) in
   (exists v, ic_assigned (s_cfg r) = Some v /\ length v = 4%nat /\ all_zero v = false /\
              (exists a, s_addr r = Some a /\ to4 a = Some v) /\ pp_addr (s_peer r) = None) \/
   (s_cfg r = c /\ s_fsm r = st /\ s_peer r = p /\ s_addr r = None /\ s_open r = op).
 Proof.
-  intros ow c st p addr op last orc. unfold start_ncp.
+  intros ow c st p addr op last dns orc. unfold start_ncp.
   set (addr1 := match addr with None => or_alloc orc | Some a =>
                   match ow with PPPoE => if or_reserve_ok orc then Some a else None | LNS => Some a end end).
   cbn [f_always repaired]. rewrite orb_false_r.
@@ -708,10 +708,10 @@ Proof.
   exists v. destruct ow; simpl; simpl in Hv; rewrite Hv; repeat split; auto; exists x; auto.
 Qed.
 
-Lemma sess_start_ok : forall ow aaa orc, sess_ok (sess_start repaired ow aaa orc).
+Lemma sess_start_ok : forall ow aaa d orc, sess_ok (sess_start_dns repaired ow aaa d orc).
 Proof.
-  intros ow aaa orc. unfold sess_start.
-  destruct (start_ncp_spec ow (mk_ipcp_cfg None None) 0 ipeer0 (extract_ip repaired aaa) false [] orc)
+  intros ow aaa d orc. unfold sess_start_dns.
+  destruct (start_ncp_spec ow (mk_ipcp_cfg None None) 0 ipeer0 (extract_ip repaired aaa) false [] (dns_of d) orc)
     as [(v & Hv & Hl & Hz & Ha & Hp)|(_ & H2 & _ & H4 & H5)].
   - right. exists v. repeat split; auto.
   - left. repeat split; auto.
@@ -769,8 +769,8 @@ Proof.
   { pose proof (sess_down_ok s) as [A B]. rewrite D in A, B. simpl in A, B.
     destruct H as [H|H]; [left; auto|right; apply B; auto]. }
   set (addr := match extract_ip repaired aaa with Some x => Some x | None => s_addr s1 end).
-  pose proof (start_ncp_spec (s_owner s1) (s_cfg s1) (s_fsm s1) (s_peer s1) addr (s_open s1) (s_lastreq s1) orc) as SP.
-  destruct (start_ncp repaired (s_owner s1) (s_cfg s1) (s_fsm s1) (s_peer s1) addr (s_open s1) (s_lastreq s1) orc)
+  pose proof (start_ncp_spec (s_owner s1) (s_cfg s1) (s_fsm s1) (s_peer s1) addr (s_open s1) (s_lastreq s1) (s_dns s1) orc) as SP.
+  destruct (start_ncp repaired (s_owner s1) (s_cfg s1) (s_fsm s1) (s_peer s1) addr (s_open s1) (s_lastreq s1) (s_dns s1) orc)
     as [s2 a2]. simpl in *.
   destruct SP as [(v & Hv & Hl & Hz & Ha & Hp)|(E1 & E2 & E3 & E4 & E5)].
   - right. exists v. repeat split; auto.
@@ -847,8 +847,8 @@ Proof.
     { pose proof (sess_down_ok s) as [A B]. rewrite D in A, B. simpl in A, B.
       destruct H as [H|[H Hne]]; [left; auto|right; destruct (B H); auto]. }
     set (addr := match extract_ip repaired aaa with Some x => Some x | None => s_addr s1 end).
-    pose proof (start_ncp_spec (s_owner s1) (s_cfg s1) (s_fsm s1) (s_peer s1) addr (s_open s1) (s_lastreq s1) orc) as SP.
-    destruct (start_ncp repaired (s_owner s1) (s_cfg s1) (s_fsm s1) (s_peer s1) addr (s_open s1) (s_lastreq s1) orc)
+    pose proof (start_ncp_spec (s_owner s1) (s_cfg s1) (s_fsm s1) (s_peer s1) addr (s_open s1) (s_lastreq s1) (s_dns s1) orc) as SP.
+    destruct (start_ncp repaired (s_owner s1) (s_cfg s1) (s_fsm s1) (s_peer s1) addr (s_open s1) (s_lastreq s1) (s_dns s1) orc)
       as [s2 a2] eqn:SN. simpl in *.
     destruct SP as [(v & Hv & Hl & Hz & (a & Ha & Hto) & Hp)|(E1 & E2 & E3 & E4 & E5)].
     + right. split; [exists v; repeat split; auto; right; exists a; auto|rewrite Ha; discriminate].
@@ -874,10 +874,10 @@ Proof.
   apply andb_true_iff in Hnc. destruct Hnc as [H1 H2]. apply IH; auto. apply sess_step_ok2; auto.
 Qed.
 
-Lemma sess_start_ok2 : forall ow aaa orc, sess_ok2 (sess_start repaired ow aaa orc).
+Lemma sess_start_ok2 : forall ow aaa d orc, sess_ok2 (sess_start_dns repaired ow aaa d orc).
 Proof.
-  intros ow aaa orc. unfold sess_start.
-  destruct (start_ncp_spec ow (mk_ipcp_cfg None None) 0 ipeer0 (extract_ip repaired aaa) false [] orc)
+  intros ow aaa d orc. unfold sess_start_dns.
+  destruct (start_ncp_spec ow (mk_ipcp_cfg None None) 0 ipeer0 (extract_ip repaired aaa) false [] (dns_of d) orc)
     as [(v & Hv & Hl & Hz & (a & Ha & Hto) & Hp)|(_ & H2 & _ & H4 & H5)].
   - right. split; [exists v; repeat split; auto; right; exists a; auto|rewrite Ha; discriminate].
   - left. repeat split; auto.
@@ -910,15 +910,15 @@ Qed.
 
 (* at every point of every history, for both owners: either IPCP was never started (no address, closed), or
    the assigned address is usable, the session address is nil or the assigned one, nothing stale is remembered *)
-Lemma adopted_is_assigned : forall ow aaa orc es,
-  let s := sess_run repaired (sess_start repaired ow aaa orc) es in
+Lemma adopted_is_assigned : forall ow aaa d orc es,
+  let s := sess_run repaired (sess_start_dns repaired ow aaa d orc) es in
   (s_fsm s = 0%N /\ s_addr s = None /\ s_open s = false) \/
   (usable (ic_assigned (s_cfg s)) = true /\
    (s_addr s = None \/ to4o (s_addr s) = ic_assigned (s_cfg s)) /\
    (pp_addr (s_peer s) = None \/ pp_addr (s_peer s) = ic_assigned (s_cfg s))).
 Proof.
-  intros ow aaa orc es s.
-  pose proof (sess_run_ok es _ (sess_start_ok ow aaa orc)) as H. fold s in H.
+  intros ow aaa d orc es s.
+  pose proof (sess_run_ok es _ (sess_start_ok ow aaa d orc)) as H. fold s in H.
   destruct H as [H|H]; [left; exact H|right].
   split; [apply usable_assigned_of_inv; exact H|].
   destruct H as (v & Hv & _ & _ & Ha & Hp). rewrite Hv. split; [|exact Hp].
@@ -926,14 +926,14 @@ Proof.
 Qed.
 
 (* and when no re-authentication runs into a reservation conflict the session address IS the assigned one *)
-Lemma adopted_is_assigned_no_conflict : forall ow aaa orc es,
+Lemma adopted_is_assigned_no_conflict : forall ow aaa d orc es,
   forallb no_conflict es = true ->
-  let s := sess_run repaired (sess_start repaired ow aaa orc) es in
+  let s := sess_run repaired (sess_start_dns repaired ow aaa d orc) es in
   (s_fsm s = 0%N /\ s_addr s = None /\ s_open s = false) \/
   (usable (ic_assigned (s_cfg s)) = true /\ to4o (s_addr s) = ic_assigned (s_cfg s)).
 Proof.
-  intros ow aaa orc es Hnc s.
-  pose proof (sess_run_ok2 es _ Hnc (sess_start_ok2 ow aaa orc)) as H. fold s in H.
+  intros ow aaa d orc es Hnc s.
+  pose proof (sess_run_ok2 es _ Hnc (sess_start_ok2 ow aaa d orc)) as H. fold s in H.
   destruct H as [H|(H & Hne)]; [left; exact H|right].
   split; [apply usable_assigned_of_inv; exact H|].
   destruct H as (v & Hv & _ & _ & Ha & Hp). rewrite Hv.
@@ -948,15 +948,15 @@ Definition addr_after_registry (ow : owner) (addr : option bytes) (orc : oracle)
   | Some a => match ow with PPPoE => if or_reserve_ok orc then Some a else None | LNS => Some a end
   end.
 
-Lemma startncp_assigned : forall ow aaa orc,
-  let s := sess_start repaired ow aaa orc in
+Lemma startncp_assigned : forall ow aaa d orc,
+  let s := sess_start_dns repaired ow aaa d orc in
   let a := addr_after_registry ow (extract_ip repaired aaa) orc in
   (usable a = true ->
      s_fsm s = 6%N /\ usable (ic_assigned (s_cfg s)) = true /\ ic_assigned (s_cfg s) = to4o a /\ s_addr s = a) /\
   (usable a = false ->
      s_fsm s = 0%N /\ s_addr s = None /\ s_open s = false /\ ic_assigned (s_cfg s) = None).
 Proof.
-  intros ow aaa orc s a. unfold s, sess_start, start_ncp. fold (addr_after_registry ow (extract_ip repaired aaa) orc).
+  intros ow aaa d orc s a. unfold s, sess_start_dns, start_ncp. fold (addr_after_registry ow (extract_ip repaired aaa) orc).
   fold a. cbn [f_always repaired]. rewrite orb_false_r.
   destruct (usable a) eqn:Hu; split; intros H; try discriminate.
   - destruct (usable_spec _ Hu) as (v & Hv & Hl & Hz).
@@ -1530,8 +1530,8 @@ Proof.
   rewrite sess_fsm_only_acts. apply no_sca_down.
 Qed.
 
-Lemma start_ncp_no_sca : forall fl ow c st p addr op last orc,
-  no_sca (snd (start_ncp fl ow c st p addr op last orc)).
+Lemma start_ncp_no_sca : forall fl ow c st p addr op last dns orc,
+  no_sca (snd (start_ncp fl ow c st p addr op last dns orc)).
 Proof.
   intros. unfold start_ncp. destruct (usable _ || f_always fl); [|intros id os []].
   destruct (match ow, _ with LNS, None => _ | _, _ => _ end). destruct (up_open st) as [a st'] eqn:E.
@@ -1564,13 +1564,13 @@ Proof.
   - rewrite sess_fsm_only_acts in Hin. exfalso. destruct (N.eqb (s_fsm s) 5); simpl in Hin; contradiction.
   - exfalso. eapply sess_down_no_sca; exact Hin.
   - exfalso. destruct (sess_down repaired s) as [s1 a1] eqn:D.
-    destruct (start_ncp repaired (s_owner s1) (s_cfg s1) (s_fsm s1) (s_peer s1) _ (s_open s1) (s_lastreq s1) orc)
+    destruct (start_ncp repaired (s_owner s1) (s_cfg s1) (s_fsm s1) (s_peer s1) _ (s_open s1) (s_lastreq s1) (s_dns s1) orc)
       as [s2 a2] eqn:SN.
     simpl in Hin. apply in_app_or in Hin. destruct Hin as [Hin|Hin].
     + pose proof (sess_down_no_sca repaired s) as H. rewrite D in H. eapply H; exact Hin.
     + pose proof (start_ncp_no_sca repaired (s_owner s1) (s_cfg s1) (s_fsm s1) (s_peer s1)
                     (match extract_ip repaired aaa with Some x => Some x | None => s_addr s1 end)
-                    (s_open s1) (s_lastreq s1) orc) as H.
+                    (s_open s1) (s_lastreq s1) (s_dns s1) orc) as H.
       rewrite SN in H. eapply H; exact Hin.
 Qed.
 
@@ -1730,9 +1730,9 @@ Proof.
   apply IH; [apply sess_step_ok; exact H1|apply sess_step_fsm_ok; auto].
 Qed.
 
-Lemma sess_start_fsm_ok : forall ow aaa orc, fsm_ok (sess_start repaired ow aaa orc).
+Lemma sess_start_fsm_ok : forall ow aaa d orc, fsm_ok (sess_start_dns repaired ow aaa d orc).
 Proof.
-  intros ow aaa orc. unfold sess_start, start_ncp. cbn [f_always repaired]. rewrite orb_false_r.
+  intros ow aaa d orc. unfold sess_start_dns, start_ncp. cbn [f_always repaired]. rewrite orb_false_r.
   destruct (usable _) eqn:Hu.
   - destruct (match ow, _ with LNS, None => _ | _, _ => _ end). simpl. unfold fsm_ok. simpl.
     split; [lia|]. split; [discriminate|]. intros Hn. rewrite Hn in Hu. discriminate.
